@@ -119,8 +119,18 @@ def run_case(case, seed=0, optimize=True, executor="controlled", monitor=False, 
     obs["nontrivial"] = any(any(b >= 2 for b in nblocks(i["shape"], i["chunks"])) for i in case["inputs"]) or (
         not case["inputs"] and any(b >= 2 for b in nblocks(params.get("shape", [params.get("args", [1])[0]] if params.get("args") else []), params.get("chunks", [])) ) if True else False)
     world = World()
+    tmpd = None
     try:
-        spec = make_spec(world, **(spec_kw or {}))
+        if executor == "processes":
+            # worker processes cannot see an in-memory store of this process: intermediate data goes to a scratch directory
+            import tempfile
+            tmpd = tempfile.mkdtemp(prefix="vkit-proc-")
+            kw = dict(spec_kw or {})
+            kw.setdefault("allowed_mem", ALLOWED_MEM)
+            kw.setdefault("reserved_mem", 0)
+            spec = cubed.Spec(work_dir=tmpd, **kw)
+        else:
+            spec = make_spec(world, **(spec_kw or {}))
         # BUILD
         try:
             xs = cubed_inputs(case, ns, spec, world)
@@ -175,5 +185,8 @@ def run_case(case, seed=0, optimize=True, executor="controlled", monitor=False, 
             obs["dag"] = getattr(ex, "dag", None)
         return obs
     finally:
+        if tmpd is not None:
+            import shutil
+            shutil.rmtree(tmpd, ignore_errors=True)
         if not keep_world:
             world.dispose()
